@@ -114,7 +114,21 @@ def _worker(part):
         res['kinds'][kind] += 1
         if kind == 'infeasible':
             return
-        if kind in ('unsupported', 'stepbound'):
+        if kind == 'stepbound':
+            # a non-termination candidate: keep concrete inputs of the path, the caller replays them natively under a
+            # time limit (a native hang is a violation, a native return means the step bound was too small)
+            m = None
+            try:
+                m = model_of(ex, p)
+            except Exception:       # noqa
+                pass
+            if m is not None and len([v for v in res['violations'] if v.get('code') == 'stepbound']) < 6:
+                res['violations'].append({'what': 'the step bound of %d executed instructions was exceeded (non-termination candidate)' % job.max_steps,
+                                          'code': 'stepbound', 'inputs': eval_inputs(m, inputs)})
+            elif m is None and len(res['unsupported']) < 5:
+                res['unsupported'].append('%s: %s' % (kind, str(p.end[1])[:300]))
+            return
+        if kind == 'unsupported':
             if len(res['unsupported']) < 5:
                 res['unsupported'].append('%s: %s' % (kind, str(p.end[1])[:300]))
             return
@@ -266,7 +280,12 @@ def native_call(so, fn, args, ret='c_uint64', timeout=60):
     """calls an extern "C" harness function in a child process (a panic aborts the child, not the check).
     args: [('bytes', [ints])] | [('int', value, 'c_uint8'|'c_uint32'|'c_uint64'|'c_size_t')]; returns ('ret', v) | ('died', rc)"""
     spec = {'args': args, 'ret': ret}
-    p = subprocess.run([sys.executable, '-c', NATIVE_SCRIPT, so, fn.lstrip('@'), json.dumps(spec)], capture_output=True, text=True, timeout=timeout)
+    try:
+        # the address-space limit turns a loop that allocates without end into a prompt death instead of exhausting the machine
+        p = subprocess.run(['bash', '-c', 'ulimit -v 8000000; exec "$@"', 'x', sys.executable, '-c', NATIVE_SCRIPT, so, fn.lstrip('@'), json.dumps(spec)],
+                           capture_output=True, text=True, timeout=timeout)
+    except subprocess.TimeoutExpired:
+        return ('timeout', timeout)
     for line in p.stdout.splitlines():
         if line.startswith('RET '):
             return ('ret', int(line[4:]))
@@ -367,7 +386,7 @@ def run_harness_replay(payload):
     ll, so = build_harness(crate)
     r = native_call(so, payload['entry'], payload['args'], ret=payload.get('ret', 'c_uint64'))
     print('native call %s(%s) -> %r' % (payload['entry'], payload['args'], r))
-    bad = (r[0] == 'died') or (r[0] == 'ret' and r[1] != payload.get('ok_value', 0))
+    bad = (r[0] in ('died', 'timeout')) or (r[0] == 'ret' and r[1] != payload.get('ok_value', 0))
     print('meaning: %s' % payload.get('what'))
     print('REPRODUCED' if bad else 'NOT REPRODUCED')
     return 1 if bad else 0
@@ -376,7 +395,7 @@ def run_harness_replay(payload):
 def make_harness_replay(prop, name, crate, entry, args, what, key, ret='c_uint64', ok_value=0, extra=None):
     payload = {'property': prop, 'kind': 'harness-call', 'crate': crate, 'entry': entry, 'args': args, 'ret': ret, 'ok_value': ok_value,
                'what': what, 'key': key,
-               'how': 'the harness crate (llharness/src/lib.rs) is rebuilt against /repo and `entry` is called natively through ctypes with `args`; a return value other than ok_value or a crash reproduces the violation'}
+               'how': 'the harness crate (llharness/src/lib.rs) is rebuilt against /repo and `entry` is called natively through ctypes with `args`; a return value other than ok_value, a crash or no return within 60 s reproduces the violation'}
     if extra:
         payload.update(extra)
     return common.write_replay(prop, name, payload)
